@@ -57,11 +57,23 @@ def main(argv=None):
         module.run(ctx)
         return ctx.finish()
     except HarnessError as e:
-        print("HARNESS-ERROR property=%s %s" % (pid, e), file=sys.stderr)
-        return 2
+        err = str(e)
     except Exception:
-        print("HARNESS-ERROR property=%s\n%s" % (pid, traceback.format_exc()), file=sys.stderr)
-        return 2
+        err = "\n" + traceback.format_exc()
+    # The exploration stopped early (a harness invariant failed or an exception escaped a worker). Violations that
+    # were recorded and merged before that are still reported if they reproduce on replay: a library that is broken
+    # badly enough to upset the harness must not thereby silence what the harness has already seen. Without a
+    # confirmed violation the run is a harness error (exit 2).
+    print("HARNESS-ERROR property=%s %s" % (pid, err), file=sys.stderr)
+    if ctx.violations:
+        ctx.cap("the exploration stopped early: %s" % err.strip().splitlines()[-1][:200])
+        try:
+            rc = ctx.finish()
+        except Exception:  # noqa: BLE001
+            rc = 2
+        if rc == 1:
+            return 1
+    return 2
 
 
 if __name__ == "__main__":
